@@ -135,7 +135,13 @@ def _task_special(_):
     # descriptors: 'h' values travel as indexes into the out-of-band list
     for sig, refvals in (('h', [5]), ('hh', [7, 9]), ('shs', ['a', 3, 'b']),
                          ('ah', [[4, 5, 6]]), ('(hs)h', [[8, 'x'], 2]),
-                         ('a{sh}', [[['k', 11]]]), ('yah', [1, []])):
+                         ('a{sh}', [[['k', 11]]]), ('yah', [1, []]),
+                         # one descriptor referenced several times, next to
+                         # others, adjacent and not
+                         ('ah', [[5, 6, 5]]), ('hhh', [5, 6, 5]),
+                         ('ah', [[7, 7, 8, 7]]), ('(hsh)h', [[5, 'x', 6], 5]),
+                         ('a{sh}', [[['in', 5], ['log', 6], ['out', 5]]]),
+                         ('a(hh)', [[[5, 6], [6, 5], [5, 5]]])):
         ts = R.parse_sig(sig)
         for le in (True, False):
             for off in range(8):
